@@ -35,14 +35,26 @@ func caseTable(fn *core.FuncInfo, label func(e ast.Expr) string) (map[string]*as
 		}
 		tmp := map[string]*ast.CaseClause{}
 		var d *ast.CaseClause
-		for _, c := range sw.Body.List {
+		for i, c := range sw.Body.List {
 			cc := c.(*ast.CaseClause)
 			if cc.List == nil {
 				d = cc
 			}
+			// a clause that only falls through is the clause it falls into
+			target := cc
+			for j := i; j+1 < len(sw.Body.List); j++ {
+				cj := sw.Body.List[j].(*ast.CaseClause)
+				if len(cj.Body) != 1 {
+					break
+				}
+				if bs, isBr := cj.Body[0].(*ast.BranchStmt); !isBr || bs.Tok != token.FALLTHROUGH {
+					break
+				}
+				target = sw.Body.List[j+1].(*ast.CaseClause)
+			}
 			for _, e := range cc.List {
 				if l := label(e); l != "" {
-					tmp[l] = cc
+					tmp[l] = target
 				}
 			}
 		}
@@ -476,6 +488,7 @@ func readerTable(w *core.World) (map[string]*readerCase, *core.FuncInfo) {
 
 func checkC08(r *core.Run) {
 	r.Explain = "Decided statically by table extraction and constant evaluation: (C08.codes) every JDBC code the image builder can emit (MySQLStrToJavaType ∘ MySQLCodeToJava over its type strings, minus JDBCTypeOther) has a case in ColumnImage.UnmarshalJSON; (C08.kinds) per type string the Go kind produced by the row scanner, the JSON shape encoding/json gives it (time.Time special-cased by MarshalJSON) and what the reader's case asserts and undoes agree: no assertion on a dynamic type encoding/json never produces, no reader transform without its inverse on the writer side or vice versa, no 64-bit integer decoded through float64; every layout the writer formats a time.Time with has a zone designator (the reader parses with one of the writer's layouts); (C08.pair) Compress is reached from the flush path iff Decompress is reached from the undo path, under the same context key constant; the serializer name is written and read under one key; every UndoLogParser.Decode restores kinds by type code; (C08.registry) each compressor's GetCompressorType equals the case label returning it, unknown spellings map to the identity compressor; (C08.nopanic) the parser used on the decode path is assigned on every path before its Decode is called. (C08.pure) compressors, serializers and the column (un)marshalling consult no package-level state that request paths mutate — an output buffer taken from a pool and put back while its bytes are still referenced belongs here; (C08.stream) in every Compressor implementation a stream writer wrapped around the output buffer is closed (not merely deferred) before the buffer's bytes are taken, and Compress returns its input unchanged on some path only if Decompress returns its input unchanged on every path. NOT decided: the actual value round trip, the compression libraries, thresholds."
+	r.Explain += " Round 8: (C08.kinds, also) the protobuf writer's value wrapper answers a non-nil Any on every non-error exit — a NULL is written as a value, not left out."
 	r.Trusted = []string{"go/types", "encoding/json's mapping of Go kinds to JSON and back into interface{} (bool, float64, string, []interface{}, map[string]interface{})", "compression libraries"}
 	w := r.W
 	jd, ok := jdbcOf(w)
@@ -731,6 +744,7 @@ func checkC08(r *core.Run) {
 	c08Registry(r)
 	c08Stream(r)
 	c08Whole(r)
+	c08AnyNeverNil(r)
 	{
 		var fs []*core.FuncInfo
 		if ci := r.W.Interface("pkg/compressor", "Compressor"); ci != nil {
@@ -779,6 +793,19 @@ func ctxKeyUses(fn *core.FuncInfo) (writes, reads map[string]bool) {
 		return true
 	})
 	ast.Inspect(fn.Decl.Body, func(n ast.Node) bool {
+		if cl, ok := n.(*ast.CompositeLit); ok {
+			// map[string]string{key: .., key: ..} writes its keys
+			if t := info.TypeOf(cl); t != nil && t.Underlying().String() == "map[string]string" {
+				for _, el := range cl.Elts {
+					if kv, ok := el.(*ast.KeyValueExpr); ok {
+						if v := core.ConstVal(info, kv.Key); v != nil && v.Kind() == constant.String {
+							writes[constant.StringVal(v)] = true
+						}
+					}
+				}
+			}
+			return true
+		}
 		ix, ok := n.(*ast.IndexExpr)
 		if !ok {
 			return true
@@ -1444,4 +1471,49 @@ func decodedValueVar(f *core.FuncInfo, o types.Object) bool {
 	}
 	c := core.ConstVal(f.Pkg.TypesInfo, ix.Index)
 	return c != nil && c.Kind() == constant.String && constant.StringVal(c) == "value"
+}
+
+// c08AnyNeverNil (C08.kinds): the protobuf undo-log writer wraps every column value — NULL included — in an Any: a
+// function of the parser package that answers (*Any, error) never answers (nil, nil). The reader cannot unpack a
+// missing Any and leaves the column out, so a NULL column would vanish from the image.
+func c08AnyNeverNil(r *core.Run) {
+	w := r.W
+	n := 0
+	for _, f := range w.SortedFuncs() {
+		if !strings.HasSuffix(f.Pkg.PkgPath, "/pkg/datasource/sql/undo/parser") || w.IsTestFile(f.Decl.Pos()) || f.Decl.Body == nil {
+			continue
+		}
+		sig := f.Obj.Type().(*types.Signature)
+		if sig.Results().Len() != 2 || !c08IsAnyPtr(sig.Results().At(0).Type()) || sig.Results().At(1).Type().String() != "error" {
+			continue
+		}
+		res := (&flow.Spec{W: w, Depth: 0}).Analyze(f)
+		r.Fn(f)
+		for _, ex := range res.Exits {
+			if ex.Class == flow.ExitErr || len(ex.Results) != 2 {
+				continue
+			}
+			n++
+			r.Sites++
+			isNil := isNilIdent(f.Pkg.TypesInfo, ex.Results[0])
+			if o := core.ObjOf(f.Pkg.TypesInfo, ex.Results[0]); o != nil && ex.St.IsNil(o) {
+				isNil = true
+			}
+			r.Check(!isNil, "C08.kinds", core.ShortKey(f.Obj)+" "+exitRole(ex, nil)+" answers a wrapped value", w.Pos(ex.Pos), "never (nil, nil)",
+				"the writer answers no Any for some value (NULL): the reader cannot unpack a missing Any and leaves the column out of the decoded row — the undo of that row restores every column but this one")
+		}
+	}
+	if n == 0 {
+		r.Undecided("C08.kinds", "protobuf value wrapper (*Any, error)", "", "not found")
+	}
+}
+
+// c08IsAnyPtr: *anypb.Any, also through the alias the older protobuf module exports.
+func c08IsAnyPtr(t types.Type) bool {
+	p, ok := types.Unalias(t).(*types.Pointer)
+	if !ok {
+		return false
+	}
+	n, ok := types.Unalias(p.Elem()).(*types.Named)
+	return ok && n.Obj().Name() == "Any" && n.Obj().Pkg() != nil && strings.HasSuffix(n.Obj().Pkg().Path(), "/anypb")
 }
